@@ -77,7 +77,8 @@ def jobs(tier):
 def requirements(tier):
     k = 1 if tier == "quick" else 10
     req = {
-        "ivp:free": 2000 * k, "propagator:from_orbit:QSW": 20, "propagator:from_orbit:TNW": 20,
+        "ivp:free": 2000 * k, "history:propagated-before-maneuvers-attached": 100 * k, "request-label:TT": 100 * k, "request-label:GPS": 100 * k,
+        "propagator:from_orbit:QSW": 20, "propagator:from_orbit:TNW": 20,
         "stream:evaluated": 2000 * k,
         "stream:maneuver-at-epoch": 100 * k,
         "ivp:inside-burn": 300 * k,
@@ -516,6 +517,13 @@ def case_mans(ctx, job, idx, rng, st):
         ctx.count("orientation:" + ori)
         states[ori] = to_axes(rac, ori)
         orbs[ori], _ = make_orbit(st, sma, ori, states[ori], epoch)
+        if idx % 3 == 0:
+            # history: the orbit is propagated once BEFORE its maneuvers are attached (plan a burn after a first look)
+            try:
+                orbs[ori].propagate(date_at(epoch, rng.randint(0, max(end, T_us))))
+                ctx.count("history:propagated-before-maneuvers-attached")
+            except Exception as exc:
+                ctx.violation("C16/propagate-raises-free", dict(sma=sma, exc=repr(exc)), repr(exc))
         try:
             orbs[ori].maneuvers = build_lib_maneuvers(mans, ori, epoch)
         except Exception as exc:
@@ -527,7 +535,15 @@ def case_mans(ctx, job, idx, rng, st):
             t = q * 1e-6
             w = dict(w0, dt_us=q)
             cls = classify(mans, q)
-            got = lib_state(ctx, orbs[ori], date_at(epoch, q), "maneuvers", w)
+            qdate = date_at(epoch, q)
+            if idx % 4 == 1:
+                # the same instant under another scale label (no tables needed: TT = TAI + 32.184 s, GPS = TAI - 19 s):
+                # the elapsed time is a property of the two instants
+                lab = ("TT", "GPS", "TAI")[(idx // 4 + len(results)) % 3]
+                qdate = qdate.change_scale(lab)
+                ctx.count("request-label:" + lab)
+                w["request_label"] = lab
+            got = lib_state(ctx, orbs[ori], qdate, "maneuvers", w)
             if got is None:
                 continue
             results[(ori, q)] = got
